@@ -119,8 +119,8 @@ Proof.
 Qed.
 Print Assumptions C15_trigger_signal_effects_survive_refuted.
 
-(* if ApplyEdits itself fails, StatementComplete returns nil, Close reports the error, and the edits ApplyEdits had
-   already made stay in the session's table (not exhibited on the implementation: no fault hook inside ApplyEdits) *)
+(* if ApplyEdits fails persistently, the error is reported and the edits ApplyEdits had already made stay in the
+   session's table (a persistent failure is not exhibited on the implementation: the hook is one-shot) *)
 Theorem C15_apply_edits_failure_leaves_partial_edits_refuted :
   exists (apply_opt : nat -> list nat -> list nat -> option (list nat) * list nat) (cs : list (call nat)) (t' : list nat),
     all_good nat cs = true /\ run_stmt (list nat) nat apply_opt [] cs = (RErr, t') /\ t' <> [].
@@ -142,23 +142,30 @@ Proof.
 Qed.
 Print Assumptions C15_apply_error_at_close_reported_after_publish_refuted.
 
-(* ... while the same one-shot error in StatementComplete's call is swallowed (StatementComplete returns nil) and
-   repaired by the retry in Close: the statement succeeds with all changes *)
-Example C15_apply_error_in_statement_complete_is_swallowed :
-  run_stmt (list nat) nat first_fault_apply [7] [CGood 1; CGood 2] = (ROk, [7; 1; 2]).
-Proof. exact apply_error_in_statement_complete_is_swallowed. Qed.
-Print Assumptions C15_apply_error_in_statement_complete_is_swallowed.
+(* since /repo 647a7064d an ApplyEdits failure inside StatementComplete is never swallowed: the statement reports it *)
+Theorem C15_apply_error_in_statement_complete_is_reported :
+  forall (T E : Type) (apply_opt : nat -> T -> list E -> option T * T) (t : T) (cs : list (call E)),
+    all_good E cs = true -> (forall t' es, fst (apply_opt 1 t' es) = None) ->
+    fst (run_stmt T E apply_opt t cs) = RErr.
+Proof. exact stmt_complete_error_is_reported. Qed.
+Print Assumptions C15_apply_error_in_statement_complete_is_reported.
 
-(* where the swallowing does harm (exhibited on the implementation): INSERT IGNORE, one-shot storage error in the
-   ApplyEdits of row 1; row 2 is an ignorable duplicate; the statement succeeds and row 1 is lost *)
-Theorem C15_swallowed_apply_error_loses_accepted_row_refuted :
+(* ... but it is still not atomic: TableEditorIter.Close does not discard after a StatementComplete error, and the
+   inner Close (tableEditor.Close) retries ApplyEdits and publishes — reported as failed, fully applied *)
+Theorem C15_apply_error_reported_but_applied_by_close_retry_refuted :
   exists (apply_opt : nat -> list nat -> list nat -> option (list nat) * list nat) (cs : list (call nat)) (t t' : list nat),
-    no_hard nat cs = true /\ run_stmt_ckpt (list nat) nat apply_opt t cs = (ROk, t') /\ t' <> t ++ good_edits nat cs.
+    all_good nat cs = true /\ run_stmt (list nat) nat apply_opt t cs = (RErr, t') /\ t' <> t.
 Proof.
-  exists first_fault_apply, [CGood 1; CBad true; CGood 3], [7], [7; 3].
-  split; [reflexivity|]. split; [exact swallowed_apply_error_loses_row | discriminate].
+  exists first_fault_apply, [CGood 1; CGood 2], [7], [7; 1; 2].
+  split; [reflexivity|]. split; [exact apply_error_in_statement_complete_is_reported_but_applied | discriminate].
 Qed.
-Print Assumptions C15_swallowed_apply_error_loses_accepted_row_refuted.
+Print Assumptions C15_apply_error_reported_but_applied_by_close_retry_refuted.
+
+(* the INSERT IGNORE history that used to SUCCEED without its first row now reports the error *)
+Example C15_apply_error_in_insert_ignore_is_reported :
+  run_stmt_ckpt (list nat) nat first_fault_apply [7] [CGood 1; CBad true; CGood 3] = (RErr, [7; 1]).
+Proof. exact apply_error_in_insert_ignore_is_reported. Qed.
+Print Assumptions C15_apply_error_in_insert_ignore_is_reported.
 
 Example C15_nonvacuous :
   run_stmt (list nat) nat app_apply [7] (inject nat 3 [CGood 1; CGood 2; CGood 3; CGood 4]) = (RErr, [7]) /\
